@@ -4,11 +4,22 @@ CLASS_HOME = {
     'DefaultVector': 'openmdao/vectors/default_vector.py',
     'Vector': 'openmdao/vectors/vector.py',
     '_VecData': 'openmdao/vectors/vector.py',
+    'NonlinearSolver': 'openmdao/solvers/solver.py',
+    'LinearSolver': 'openmdao/solvers/solver.py',
+    'Solver': 'openmdao/solvers/solver.py',
+    'BlockLinearSolver': 'openmdao/solvers/solver.py',
+    'LinearBlockGS': 'openmdao/solvers/linear/linear_block_gs.py',
+    'NewtonSolver': 'openmdao/solvers/nonlinear/newton.py',
+    'NonlinearBlockGS': 'openmdao/solvers/nonlinear/nonlinear_block_gs.py',
+    'LinesearchSolver': 'openmdao/solvers/linesearch/backtracking.py',
+    'BoundsEnforceLS': 'openmdao/solvers/linesearch/backtracking.py',
+    'ArmijoGoldsteinLS': 'openmdao/solvers/linesearch/backtracking.py',
 }
 
 PROPERTY_MODULES = {
     'C10': ['contracts.c10_bounds'],
     'C33': ['contracts.c33_vector'],
+    'C09': ['contracts.c09_solvers'],
 }
 
 # modules whose contracts may be used as callee contracts by any property
@@ -32,8 +43,13 @@ ASSUMPTIONS = [
     'dropped by extraction: docstrings, print/issue_warning/_mpi_print calls and message strings, Recording context managers (transparent), type annotations',
 ]
 PROPERTY_TRUST = {}
-PROPERTY_ASSUMPTIONS = {}
+PROPERTY_ASSUMPTIONS = {
+    'C09': ['IEEE mode: doubles are bit-precise except division, which is an uninterpreted function constrained by true IEEE-754 facts (NaN propagation, inf/finite, 0/0, sign rule, x/x, x/1)',
+            'assumed: _iter_get_norm returns NaN or a value >= 0; _single_iteration and _run_apply neither raise nor modify solver control state'],
+}
 GAPS = {
+    'C09': ['BroydenSolver._iter_initialize (array dtype conversions outside the subset)', 'ScipyKrylov / PETScKrylov delegate to external iterations', 'ArmijoGoldsteinLS / BoundsEnforceLS inner iteration counts', 'exceptions raised by subsystems inside _single_iteration'],
+    'C33': ['DefaultVector._initialize_data (views tile [0,end) in order)', 'Vector.set_var / __getitem__ name lookup and indexer path', 'non-contiguous / distributed vectors'],
     'C10': ['composition with NewtonSolver._single_iteration (that the line search is called with u += alpha*du just applied) is covered only for BoundsEnforceLS._solve / ArmijoGoldsteinLS._iter_initialize call protocol',
             'floating-point: a result can lie one ulp outside a bound (claim is over reals)'],
 }
